@@ -24,7 +24,7 @@ TECHNIQUE = ("Coq proof (list sums, ring/field/lra, ln algebra) + Coq-Interval c
              "config-selectable likelihood model with the code on captured densities")
 
 HEADER = ("From Coq Require Import Reals List.\nFrom Interval Require Import Tactic.\n"
-          "From TFV Require Import Base.RBase Base.Tie Base.RSum Lik.NLL.\nImport ListNotations.\nOpen Scope R_scope.\n")
+          "From TFV Require Import Base.RBase Base.Tie Base.RSum Lik.NLL Lik.NLL_proofs.\nImport ListNotations.\nOpen Scope R_scope.\n")
 
 MODELS = ["default", "extended", "cfit", "cfit_cached", "cfit_extended", "cached_int", "cached_amp",
           "simple", "simple_clip", "simple_cfit"]
@@ -32,7 +32,7 @@ CFIT_LIKE = ("cfit", "cfit_cached", "cfit_extended", "simple_cfit")
 
 MASSES = (2.0, [0.3, 0.4, 0.5])
 LISTF = "rdot rsum map rscale rzip fst snd"
-IP = "interval with (i_prec 90)"
+IP = "interval with (i_prec 70)"
 
 
 # ----------------------------------------------------------------------------- inputs
@@ -262,7 +262,8 @@ def part_goals(s, gi, pi, p, batch, fb, tag):
     bgexpr = Rlist(p.bgw) if (p.bgw is not None and s.bgkind != "noweight") else (
         "(bg_const_weights %s %d)" % (Rq(s.wb), p.bgn) if s.bgkind == "noweight" else "[]")
     stmt = lets(ws=Rlist(p.ws), bgw=bgexpr) + "close_list %s (fcn_weight ws bgw) %s" % (Rq(1e-12 * wmax), Rlist(W))
-    tac = ("intros ws bgw; cbv [fcn_weight scale_w]; " + bound_frag("a1", "alpha (blend ws bgw)", a1, "a1, ws, bgw", "alpha sqs blend bg_const_weights List.repeat app")
+    tac = ("intros ws bgw; cbv [fcn_weight scale_w]; "
+           + bound_frag("a1", "alpha (blend ws bgw)", a1, "a1, ws, bgw", "alpha sqs blend bg_const_weights List.repeat app")
            + "unfold ws, bgw; cbv [close_list blend bg_const_weights List.repeat app %s]; repeat split; %s" % (LISTF, IP))
     out.append((base + "_W", stmt, tac, {"layer": "weights", "site": "Model.get_weight_data / FCN.__init__"}))
     # ---- layer V: FCN.mc_weight = v / sum v
@@ -271,12 +272,11 @@ def part_goals(s, gi, pi, p, batch, fb, tag):
     tac = ("intros v; cbv [mc_norm]; " + bound_frag("sv", "rsum v", sv, "sv, v", "")
            + "unfold v; cbv [close_list %s]; repeat split; %s" % (LISTF, IP))
     out.append((base + "_V", stmt, tac, {"layer": "mc_weights", "site": "FCN.__init__ mc_weight"}))
-    # ---- layers C (call) and G (value alongside the gradient)
-    Wb, fb_ = split_batches(W, batch), split_batches(f, batch)
-    Vb, gb = split_batches(V, batch), split_batches(g, batch)
-    aW = sum(W) / sum(x * x for x in W)
+    # ---- layers C (call) and G (value alongside the gradient; batch-independent by theorem C06_nll_batch_independent,
+    #      so every batch size is tied to the same un-batched model term)
+    aW = math.fsum(W) / math.fsum(x * x for x in W)
     W2 = [aW * x for x in W]
-    aW2 = sum(W2) / sum(x * x for x in W2)
+    aW2 = math.fsum(W2) / math.fsum(x * x for x in W2)
     cl = np_clip_log(f)
     sw = sum(W)
     I = float(np.dot(V, g))
@@ -284,28 +284,40 @@ def part_goals(s, gi, pi, p, batch, fb, tag):
     def tol_of(y, terms):
         return 1e-10 * (abs(y) + terms)
 
+    def both(pre, fast, slow):
+        return pre + "first [ (" + fast + ") | (" + slow + ") ]"
+
+    HF = "assert (Hf : map clip_log f = map ln f) by (apply map_clip_log_hi; unfold f; repeat constructor; cbv [eps_clip]; %s); rewrite Hf; " % IP
     a2frag = bound_frag("a2", "alpha W", aW, "a2, W", "alpha sqs", rel=0, absd=1e-12)
+    L4 = lets(W=Rlist(W), f=Rlist(f), V=Rlist(V), g=Rlist(g))
     if m in ("default", "extended", "cached_int", "cached_amp"):
         ext = "true" if m == "extended" else "false"
         intf = I if m == "extended" else math.log(I)
         scale = float(np.sum(np.abs(np.array(W) * cl))) + abs(sw * intf)
-        stmt = lets(W=Rlist(W), f=Rlist(f), V=Rlist(V), g=Rlist(g)) + le("nll_call %s W f V g" % ext, p.call, tol_of(p.call, scale))
         a3frag = bound_frag("a3", "alpha (rscale a2 W)", aW2, "a3, W", "alpha sqs", rel=0, absd=1e-10)
-        tac = ("intros W f V g; cbv [nll_call nll_base scale_w]; " + a2frag + a3frag
-               + "unfold W, f, V, g; cbv [%s clip_log int_f eps_clip]; rclose" % LISTF)
+        fast = HF + "unfold W, f, V, g; cbv [%s int_f]; %s" % (LISTF, IP)
+        slow = "unfold W, f, V, g; cbv [%s clip_log int_f eps_clip]; rclose" % LISTF
+        stmt = L4 + le("nll_call %s W f V g" % ext, p.call, tol_of(p.call, scale))
+        tac = both("intros W f V g; cbv [nll_call nll_base scale_w]; " + a2frag + a3frag, fast, slow)
         out.append((base + "_C", stmt, tac, {"layer": "call", "site": "Model.nll / BaseModel.nll"}))
-        stmt = le("nll_gradval_batched %s %s %s" % (ext, pairs(Wb, fb_), pairs(Vb, gb)), p.gradval, tol_of(p.gradval, scale))
-        tac = "cbv [nll_gradval_batched clip_batch %s clip_log int_f eps_clip]; rclose" % LISTF
+        stmt = L4 + le("nll_gradval %s W f V g" % ext, p.gradval, tol_of(p.gradval, scale))
+        tac = both("intros W f V g; cbv [nll_gradval]; ", fast, slow)
         out.append((base + "_G", stmt, tac, {"layer": "gradval", "site": "nll_grad_batch (value)"}))
-    elif m in ("simple", "simple_clip"):
+    elif m == "simple":
         scale = float(np.sum(np.abs(np.array(W) * np.log(f)))) + abs(sw * math.log(I))
-        cn, bn = ("simple_call", "simple_batched") if m == "simple" else ("simple_clip_call", "simple_clip_batched")
-        stmt = lets(W=Rlist(W), f=Rlist(f), V=Rlist(V), g=Rlist(g)) + le("%s W f V g" % cn, p.call, tol_of(p.call, scale))
-        tac = "intros W f V g; unfold W, f, V, g; cbv [%s %s clip_log eps_clip]; rclose" % (cn, LISTF)
-        out.append((base + "_C", stmt, tac, {"layer": "call", "site": "BaseCustomModel.nll"}))
-        stmt = le("%s %s %s" % (bn, pairs(Wb, fb_), pairs(Vb, gb)), p.gradval, tol_of(p.gradval, scale))
-        tac = "cbv [%s %s clip_log eps_clip]; rclose" % (bn, LISTF)
-        out.append((base + "_G", stmt, tac, {"layer": "gradval", "site": "BaseCustomModel.nll_grad_batch (value)"}))
+        for suffix, y, site in (("_C", p.call, "BaseCustomModel.nll"), ("_G", p.gradval, "BaseCustomModel.nll_grad_batch (value)")):
+            stmt = L4 + le("simple_call W f V g", y, tol_of(y, scale))
+            tac = "intros W f V g; unfold W, f, V, g; cbv [simple_call %s]; %s" % (LISTF, IP)
+            out.append((base + suffix, stmt, tac, {"layer": "call" if suffix == "_C" else "gradval", "site": site}))
+    elif m == "simple_clip":
+        scale = float(np.sum(np.abs(np.array(W) * cl))) + abs(sw * float(np_clip_log(I)))
+        nf = bound_frag("nrm", "rdot V g", I, "nrm, V, g", "")
+        fast = HF + "rewrite (clip_log_hi nrm) by (cbv [eps_clip]; %s); unfold W, f; cbv [%s]; %s" % (IP, LISTF, IP)
+        slow = "unfold W, f; cbv [%s clip_log eps_clip]; rclose" % LISTF
+        for suffix, y, site in (("_C", p.call, "BaseCustomModel.nll"), ("_G", p.gradval, "BaseCustomModel.nll_grad_batch (value)")):
+            stmt = L4 + le("simple_clip_call W f V g", y, tol_of(y, scale))
+            tac = both("intros W f V g; cbv [simple_clip_call]; " + nf, fast, slow)
+            out.append((base + suffix, stmt, tac, {"layer": "call" if suffix == "_C" else "gradval", "site": site}))
     else:  # cfit family
         e = p.errv if m == "simple_cfit" else p.e
         isig = float(np.dot(V, np.array(p.eg) * np.array(g))); ibg = float(np.dot(V, p.bm))
@@ -315,21 +327,22 @@ def part_goals(s, gi, pi, p, batch, fb, tag):
         L = lets(W=Rlist(W), e=Rlist(e), f=Rlist(f), b=Rlist(p.b), V=Rlist(V), eg=Rlist(p.eg), g=Rlist(g), bm=Rlist(p.bm))
         isf = bound_frag("isig", "rdot V (sig_of eg g)", isig, "isig, V, eg, g", "sig_of")
         ibf = bound_frag("ibg", "rdot V bm", ibg, "ibg, V, bm", "")
-        fin = "unfold W, e, f, b; cbv [sig_of cfit_prob %s clip_log eps_clip]; rclose" % LISTF
+        fin = "unfold W, e, f, b; cbv [sig_of cfit_prob %s]; %s" % (LISTF, IP)
+        finclip = ("rewrite map_clip_log_hi by (unfold e, f, b; cbv [sig_of cfit_prob rzip]; repeat constructor; cbv [eps_clip]; %s); " % IP) + fin
         intro = "intros W e f b V eg g bm; "
         if m in ("cfit", "cfit_cached"):
             stmt = L + le("cfit_call %s W e f b V eg g bm" % Rq(fb), p.call, tol_of(p.call, scale))
             tac = intro + "cbv [cfit_call cfit_probs scale_w]; " + a2frag + isf + ibf + fin
             out.append((base + "_C", stmt, tac, {"layer": "call", "site": "Model_cfit.nll"}))
             stmt = L + le("cfit_gradval %s W e f b V eg g bm" % Rq(fb), p.gradval, tol_of(p.gradval, scale))
-            tac = intro + "cbv [cfit_gradval cfit_probs]; " + isf + ibf + fin
+            tac = intro + "cbv [cfit_gradval cfit_probs]; " + isf + ibf + finclip
             out.append((base + "_G", stmt, tac, {"layer": "gradval", "site": "Model_cfit.nll_grad_batch (value)"}))
         elif m == "cfit_extended":
             stmt = L + le("cfit_ext_call %s W e f b V eg g bm" % Rq(fb), p.call, tol_of(p.call, scale))
             tac = intro + "cbv [cfit_ext_call cfit_lambda cfit_probs scale_w]; " + a2frag + isf + ibf + fin
             out.append((base + "_C", stmt, tac, {"layer": "call", "site": "ModelCfitExtended.nll"}))
             stmt = L + le("cfit_ext_gradval %s W e f b V eg g bm" % Rq(fb), p.gradval, tol_of(p.gradval, scale))
-            tac = intro + "cbv [cfit_ext_gradval cfit_lambda cfit_probs]; " + isf + ibf + fin
+            tac = intro + "cbv [cfit_ext_gradval cfit_lambda cfit_probs]; " + isf + ibf + finclip
             out.append((base + "_G", stmt, tac, {"layer": "gradval", "site": "ModelCfitExtended.nll_grad_batch (value)"}))
         else:  # simple_cfit: same expression on both paths
             for suffix, y, site in (("_C", p.call, "SimpleCFitModel.nll"), ("_G", p.gradval, "SimpleCFitModel.nll_grad_batch (value)")):
@@ -386,7 +399,10 @@ def run_scenario(ctx, rnd, s, npoints, all_batches):
         x = random_point(rnd, cfg.vm, scale)
         if s.model in ("cached_int", "cached_amp"):
             x = {k: v for k, v in x.items() if not (k.endswith("_mass") or k.endswith("_width"))}
-        for bi, batch in enumerate([b0] + ([b for b in batches if b != b0] if all_batches else [])):
+        others = [b for b in batches if b != b0]
+        if not all_batches:
+            others = [rnd.choice(others)]
+        for bi, batch in enumerate([b0] + others):
             if s.model in ("cached_int", "cached_amp", "cfit_cached"):
                 cfg._get_model.cache_clear()  # caches are keyed by id(); rebuild so that stale entries cannot be hit
             fcn = cfg.get_fcn(all_data=all_data, batch=batch)
@@ -408,6 +424,10 @@ def run_scenario(ctx, rnd, s, npoints, all_batches):
                                 "weights": p.ws, "bg_weights": p.bgw, "mc_weights": p.v, "density_data": p.f, "density_mc": p.g,
                                 "nll_call": p.call, "nll_gradval": p.gradval, "documented": float(dv), "bg_frac": fb,
                                 "clip": s.clip})
+            ctx.count("model:" + s.model); ctx.count("batch:" + ("1" if batch == 1 else "3" if batch == 3 else "N-1" if batch == N - 1 else "N" if batch == N else "N+5"))
+            ctx.distinct.add((s.sid, pi, batch))
+            if bi > 0:
+                continue
             cs = [(float(cfg.vm.get(k)), float(mu), float(sg)) for k, (mu, sg) in s.gc.items()]
             tot_call = float(fcn(x)); tot_grad = float(fcn.nll_grad(x)[0])
             ctx.evaluations += 2
@@ -418,8 +438,6 @@ def run_scenario(ctx, rnd, s, npoints, all_batches):
                 c[3].update({"model": s.model, "batch": batch, "scenario": s.sid, "parts": [p.call for p in parts],
                              "constraints": cs, "impl": tot_call})
                 cases.append(c)
-            ctx.count("model:" + s.model); ctx.count("batch:" + ("1" if batch == 1 else "3" if batch == 3 else "N-1" if batch == N - 1 else "N" if batch == N else "N+5"))
-            ctx.distinct.add((s.sid, pi, batch))
     ctx.count("groups:%d" % s.ngroup); ctx.count("data_weights:" + s.wkind); ctx.count("bg:" + s.bgkind)
     ctx.count("mc_weights:" + s.vkind); ctx.count("gauss:%d" % len(s.gc))
     if s.clip:
@@ -491,34 +509,73 @@ def search(ctx, fails):
 
 # ----------------------------------------------------------------------------- entry points
 
-def run(ctx):
+class Acc:
+    """picklable stand-in for Ctx inside worker processes"""
+    def __init__(self, d, tier):
+        self.dir, self.tier = d, tier
+        self.dist, self.distinct, self.evaluations = {}, set(), 0
+
+    def count(self, key, n=1):
+        self.dist[key] = self.dist.get(key, 0) + n
+
+
+def _worker(args):
+    d, tier, item, sseed = args
+    import contextlib
+    import io
+    import time
     import bootstrap
     bootstrap.tf_quiet()
+    sid, m, ngroup, gauss, clip = item
+    acc = Acc(d, tier)
+    srnd = random.Random(sseed)
+    t0 = time.time()
+    try:
+        with contextlib.redirect_stdout(io.StringIO()):
+            s = make_scenario(acc, srnd, sid, m, ngroup, gauss, clip)
+            cs, rs = run_scenario(acc, srnd, s, 1 if tier == "quick" else 2, all_batches=(ngroup == 1 or tier != "quick"))
+        return {"item": item, "cases": cs, "records": rs, "dist": acc.dist, "distinct": acc.distinct, "evaluations": acc.evaluations,
+                "error": None, "dt": time.time() - t0}
+    except Exception:
+        import traceback
+        return {"item": item, "cases": [], "records": [], "dist": acc.dist, "distinct": acc.distinct, "evaluations": acc.evaluations,
+                "error": traceback.format_exc()[-1500:], "dt": time.time() - t0}
+
+
+def run(ctx):
+    import multiprocessing
+    from concurrent.futures import ProcessPoolExecutor
     rnd = random.Random(ctx.seed * 1000003 + 6)
     ctx.rule = ("seeded scenarios: likelihood model x 1-3 simultaneous data sets x {unit,positive,mixed-sign} data weights x "
                 "{no bg, bg_weight constant, per-event bg weights, bg without weights -> -w_bkg} x {unit,weighted} MC x Gaussian constraints; "
                 "8-32 data, 3-8 bg, 10-30 MC events per set; random parameter point (couplings, mass, width); one Coq-Interval goal per layer "
-                "(W,V,C,G) per data set + totals, and the batched value for every batch in {1,3,N-1,N,N+5}; distinct = (scenario, point, batch)")
+                "(W,V,C,G) per data set + totals, and the value alongside the gradient for batch sizes from {1,3,N-1,N,N+5} "
+                "(all five for single data sets); distinct = (scenario, point, batch)")
     common.theorem_stage(ctx)
-    import contextlib, io
+    items = [(ctx.dir, ctx.tier, it, rnd.randrange(1 << 60)) for it in plan(ctx, rnd)]
+    # heavier scenarios first
+    items.sort(key=lambda a: -a[2][2] if a[2][2] > 1 else -5)
+    nw = max(1, min(int(os.environ.get("VERIF_PY_JOBS", "8")), len(items)))
     cases, records = [], []
-    for (sid, m, ngroup, gauss, clip) in plan(ctx, rnd):
-        srnd = random.Random(rnd.randrange(1 << 60))
-        try:
-            with contextlib.redirect_stdout(io.StringIO()):
-                s = make_scenario(ctx, srnd, sid, m, ngroup, gauss, clip)
-                cs, rs = run_scenario(ctx, srnd, s, 1 if ctx.tier == "quick" else 2, all_batches=True)
-        except Exception as e:
-            import traceback
-            ctx.fail("implementation", "s%d" % sid, "model %s raised: %s" % (m, traceback.format_exc()[-1500:]),
+    with ProcessPoolExecutor(max_workers=nw, mp_context=multiprocessing.get_context("spawn")) as ex:
+        results = list(ex.map(_worker, items))
+    results.sort(key=lambda r: r["item"][0])
+    for r in results:
+        sid, m, ngroup, gauss, clip = r["item"]
+        for k, v in r["dist"].items():
+            ctx.count(k, v)
+        ctx.distinct |= r["distinct"]
+        ctx.evaluations += r["evaluations"]
+        if r["error"]:
+            ctx.fail("implementation", "s%d" % sid, "model %s raised: %s" % (m, r["error"]),
                      site="get_fcn(%s)" % m, fingerprint=m + ":raise", failing_input=None)
             continue
-        cases += cs; records += rs
-        ctx.log("scenario %d %s groups=%d -> %d goals" % (sid, m, ngroup, len(cs)))
+        cases += r["cases"]; records += r["records"]
+    ctx.log("implementation stage: %d scenarios, %d goals (slowest scenario %.1fs)" % (len(results), len(cases), max(r["dt"] for r in results)))
     ctx._records = records
     for c in cases[:: max(1, len(cases) // 5)]:
         ctx.sample({"case": c[0], "goal": c[1][:300] + " ...", "meta": {k: v for k, v in c[3].items() if k in ("layer", "site", "model", "batch")}})
-    res = common.coq_cases(ctx, "nll", HEADER, [c[:3] for c in cases], per_file=max(4, len(cases) // 48 + 1), case_timeout=120)
+    res = common.coq_cases(ctx, "nll", HEADER, [c[:3] for c in cases], per_file=max(3, len(cases) // 64 + 1), case_timeout=120)
     rec_by = {}
     for r in records:
         rec_by[(r["scenario"], r["group"], r["batch"])] = r
